@@ -1,6 +1,7 @@
 import Panacea.Generated.Facts
 import Panacea.Model.App
 import Panacea.Properties.C08
+import Panacea.Lemmas.MapExt
 /-!
 # C09 — State transitions are deterministic: replicas agree on every block  (partial)
 
@@ -51,5 +52,115 @@ theorem genesis_import_order_independent {V} (l : List (Bytes × V)) (hd : (l.ma
   apply C08.import_get
   · exact (hp.map (·.1)).nodup_iff.mpr hd
   · exact hp.mem_iff.mpr hm
+
+open Panacea.Genesis Panacea.CompKey in
+/-- the store key a genesis key string is imported under (`[]` for a string the import panics on) -/
+def storeKeyOf (c : CompKey.AddrCodec) (k : CompKey.Kind) (s : Bytes) : Bytes :=
+  ((CompKey.decodeFromString c k s).bind CompKey.encode).getD []
+
+open Panacea.Genesis Panacea.CompKey in
+theorem importFold_ok {V} (c : AddrCodec) (k : Kind) (l : List (Bytes × V)) :
+    ∀ (acc m : Map V), l.foldl (importStep c k) (.ok acc) = .ok m →
+      (∀ e ∈ l, ((decodeFromString c k e.1).bind encode).isSome = true) ∧
+      m = (l.map fun e => (storeKeyOf c k e.1, e.2)).foldl (fun (mm : Map V) e => mm.set e.1 e.2) acc := by
+  induction l with
+  | nil => intro acc m h; simp at h; subst h; simp
+  | cons e l ih =>
+    intro acc m h
+    simp only [List.foldl_cons] at h
+    have hstep : importStep c k (.ok acc) e =
+        match decodeFromString c k e.1 with
+        | some comps => (match encode comps with
+          | some key => .ok (acc.set key e.2)
+          | none => .panic "MustEncode")
+        | none => .panic "MustDecodeFromString" := rfl
+    rw [hstep] at h
+    have hp : ∀ (p : String) (l : List (Bytes × V)), l.foldl (importStep c k) (.panic p) = .panic p := by
+      intro p l; induction l with
+      | nil => rfl
+      | cons e l ih => simpa [List.foldl_cons, importStep] using ih
+    cases hd : decodeFromString c k e.1 with
+    | none => simp only [hd] at h; rw [hp] at h; cases h
+    | some comps =>
+      simp only [hd] at h
+      cases he : encode comps with
+      | none => simp only [he] at h; rw [hp] at h; cases h
+      | some key =>
+        simp only [he] at h
+        obtain ⟨h1, h2⟩ := ih _ _ h
+        refine ⟨?_, ?_⟩
+        · intro e' he'
+          rcases List.mem_cons.mp he' with rfl | hm
+          · simp [hd, he]
+          · exact h1 e' hm
+        · simp only [List.map_cons, List.foldl_cons]
+          have : storeKeyOf c k e.1 = key := by simp [storeKeyOf, hd, he]
+          rw [this]; exact h2
+
+open Panacea.Genesis Panacea.CompKey in
+theorem importFold_of_decodable {V} (c : AddrCodec) (k : Kind) (l : List (Bytes × V))
+    (hdec : ∀ e ∈ l, ((decodeFromString c k e.1).bind encode).isSome = true) :
+    ∀ acc : Map V, l.foldl (importStep c k) (.ok acc) =
+      .ok ((l.map fun e => (storeKeyOf c k e.1, e.2)).foldl (fun (mm : Map V) e => mm.set e.1 e.2) acc) := by
+  induction l with
+  | nil => intro acc; rfl
+  | cons e l ih =>
+    intro acc
+    have h0 := hdec e (by simp)
+    cases hd : decodeFromString c k e.1 with
+    | none => simp [hd] at h0
+    | some comps =>
+      cases he : encode comps with
+      | none => simp [hd, he] at h0
+      | some key =>
+        simp only [List.foldl_cons, List.map_cons]
+        have hstep : importStep c k (.ok acc) e = .ok (acc.set key e.2) := by
+          simp [importStep, hd, he]
+        have : storeKeyOf c k e.1 = key := by simp [storeKeyOf, hd, he]
+        rw [hstep, this]
+        exact ih (fun e' he' => hdec e' (List.mem_cons_of_mem _ he')) _
+
+open Panacea.Genesis Panacea.CompKey in
+/-- **A genesis table imports to the same store whatever order its map is visited in**, provided its entries land on
+distinct store keys (what `GenesisState.Validate` enforces with its canonical-key rule, F12). -/
+theorem importTable_perm {V} (c : AddrCodec) (k : Kind) (l l' : List (Bytes × V)) (hp : l'.Perm l) (m : Map V)
+    (hd : (l.map fun e => storeKeyOf c k e.1).Nodup) (h : importTable c k l = .ok m) :
+    importTable c k l' = .ok m := by
+  unfold importTable at h ⊢
+  obtain ⟨hdec, hm⟩ := importFold_ok c k l [] m h
+  rw [importFold_of_decodable c k l' (fun e he => hdec e (hp.mem_iff.mp he)) []]
+  congr 1
+  rw [hm]
+  exact Map.foldl_set_perm _ _ (hp.map _) (by simpa [List.map_map, Function.comp_def] using hd)
+
+open Panacea.Genesis Panacea.CompKey in
+/-- the same for the whole AOL genesis: four maps, each visited in any order -/
+theorem aolImport_perm (c : AddrCodec) (g g' : AolGenesis) (s : Aol.State)
+    (po : g'.owners.Perm g.owners) (pt : g'.topics.Perm g.topics) (pw : g'.writers.Perm g.writers)
+    (pr : g'.records.Perm g.records)
+    (no : (g.owners.map fun e => storeKeyOf c .owner e.1).Nodup) (nt : (g.topics.map fun e => storeKeyOf c .topic e.1).Nodup)
+    (nw : (g.writers.map fun e => storeKeyOf c .writer e.1).Nodup) (nr : (g.records.map fun e => storeKeyOf c .record e.1).Nodup)
+    (h : aolImport c g = .ok s) : aolImport c g' = .ok s := by
+  unfold aolImport at h ⊢
+  cases ho : importTable c .owner g.owners with
+  | err x => simp [ho, bind, Outcome.bind] at h
+  | panic x => simp [ho, bind, Outcome.bind] at h
+  | ok mo =>
+  cases ht : importTable c .topic g.topics with
+  | err x => simp [ho, ht, bind, Outcome.bind] at h
+  | panic x => simp [ho, ht, bind, Outcome.bind] at h
+  | ok mt =>
+  cases hw : importTable c .writer g.writers with
+  | err x => simp [ho, ht, hw, bind, Outcome.bind] at h
+  | panic x => simp [ho, ht, hw, bind, Outcome.bind] at h
+  | ok mw =>
+  cases hr : importTable c .record g.records with
+  | err x => simp [ho, ht, hw, hr, bind, Outcome.bind] at h
+  | panic x => simp [ho, ht, hw, hr, bind, Outcome.bind] at h
+  | ok mr =>
+  simp [ho, ht, hw, hr, bind, Outcome.bind, pure] at h
+  subst h
+  simp [importTable_perm c .owner _ _ po mo no ho, importTable_perm c .topic _ _ pt mt nt ht,
+    importTable_perm c .writer _ _ pw mw nw hw, importTable_perm c .record _ _ pr mr nr hr, bind, Outcome.bind, pure]
 
 end Panacea.C09
